@@ -240,7 +240,7 @@ impl Property for C09 {
                 })
             })
         });
-        let ex = [FamId::K256, FamId::Var].into_iter().flat_map(move |f| history::exhaustive(f, if quick { 1 } else { 2 })).chain(history::depth1_rest(&[FamId::K256, FamId::Var])).map(Case::Hist);
+        let ex = [FamId::K256, FamId::Var].into_iter().flat_map(move |f| history::exhaustive(f, if quick { 1 } else { 2 })).chain(history::depth1_rest(&[FamId::K256, FamId::Var])).chain(history::long_repeats(quick)).map(Case::Hist);
         // custom scheme with long signatures: every signature length class 64..=322 through the builder
         // (tiny content: the outer header grows by two bytes once the signature is included) and one update
         let wide = (0..37u8).flat_map(|u| {
